@@ -14,10 +14,13 @@ import (
 	"net/netip"
 	"os"
 	"path/filepath"
+	"reflect"
 	"strings"
 	"syscall"
 	"time"
 
+	"github.com/database64128/shadowsocks-go/jsoncfg"
+	"github.com/database64128/shadowsocks-go/service"
 	"go.uber.org/zap/zapcore"
 )
 
@@ -42,6 +45,7 @@ type Result struct {
 	Probe    []string    `json:"probe,omitempty"` // [server] wire class of an unauthenticated connection: eof | reset | data | ""
 	Stopped  bool        `json:"stopped"`
 	RunOK    bool        `json:"runOK"`
+	Migrate  string      `json:"migrate,omitempty"` // legacy fields only: "same", or how the -fmtConf round trip differs
 	Harness  string      `json:"harness,omitempty"` // the harness could not do its part
 	Doc      string      `json:"doc,omitempty"`     // the rendered configuration
 	Ms       int64       `json:"ms"`
@@ -215,6 +219,12 @@ func (w *World) runOnce(c *Case, dir string, res *Result) (retry bool) {
 	res.Accepted = true
 	obs := Observe(&c.Cfg, r.Cfg, r.M)
 	res.Obs = &obs
+	for i := range c.Cfg.Servers {
+		if c.Cfg.Servers[i].Leg.TCP || c.Cfg.Servers[i].Leg.UDP {
+			res.Migrate = migrateRoundTrip(c, path, dir, &obs)
+			break
+		}
+	}
 	if !w.Smoke {
 		r.M.Close()
 		return
@@ -316,6 +326,32 @@ func (w *World) runOnce(c *Case, dir string, res *Result) (retry bool) {
 	}
 	stop()
 	return
+}
+
+// migrateRoundTrip does what "shadowsocks-go -fmtConf" does (load, Config.Migrate, save) and loads the
+// rewritten document: the listener arrays it now holds must mean what the legacy fields meant.
+func migrateRoundTrip(c *Case, path, dir string, before *Observed) string {
+	var sc service.Config
+	if err := jsoncfg.Load(path, &sc); err != nil {
+		return "load: " + err.Error()
+	}
+	sc.Migrate()
+	path2 := filepath.Join(dir, "migrated.json")
+	if err := jsoncfg.Save(path2, &sc); err != nil {
+		return "save: " + err.Error()
+	}
+	r2, err := Load(path2, zapcore.WarnLevel)
+	if err != nil {
+		return "refused after migration: " + err.Error()
+	}
+	defer r2.M.Close()
+	after := Observe(&c.Cfg, r2.Cfg, r2.M)
+	if !reflect.DeepEqual(before.Eff, after.Eff) {
+		a, _ := json.Marshal(before.Eff)
+		b, _ := json.Marshal(after.Eff)
+		return fmt.Sprintf("effective settings differ: before %s after %s", a, b)
+	}
+	return "same"
 }
 
 // startNear builds the harness-side manager: for every listener of a non-direct server a direct
